@@ -256,6 +256,10 @@ impl Space for InstantsZoned {
                             if !out.lockstep("ZonedDateTime::to_ixdtf_string", &Ok(want.clone()), &got, |a, b| a == b, attrs) {
                                 continue;
                             }
+                            if so && stz == 1 && sm == ShowCal::Auto {
+                                let got = call(|| z.to_string_with_provider(&ErrProvider));
+                                out.lockstep("ZonedDateTime::to_string = text with every option at auto", &Ok(want.clone()), &got, |a, b| a == b, attrs);
+                            }
                             if stz != 0 {
                                 let keeps_cal = sm != ShowCal::Never || cal_id == "iso8601";
                                 let back = call(|| ZonedDateTime::from_str_with_provider(&want, Disambiguation::Reject, OffsetDisambiguation::Reject, &ErrProvider));
